@@ -67,6 +67,7 @@ fn balances(l: &AccountLoader<'static, Market>) -> (u64, u64) {
 /// returns (canonical request incl. observed hop outputs, response, observed hops)
 fn exec(req: &str) -> Option<(String, String, Vec<(u64, bool, u128, u128)>)> {
     let t: Vec<&str> = req.split(' ').collect();
+    if t.len() >= 2 && t[0] == "rt" && t[1] == "find" { return exec_find(&t).map(|(c, r)| (c, r, vec![])); }
     if t.len() >= 2 && t[0] == "rt" && t[1] == "create" { return exec_create(&t).map(|(c, r)| (c, r, vec![])); }
     if t.len() < 13 || t[0] != "rt" || t[1] != "swap" { return None; }
     let into = t[2] == "1";
@@ -288,6 +289,65 @@ fn gen_create(r: &mut Rng) -> String {
         if accs.is_empty() { "-".to_string() } else { accs.iter().map(fmt_cm).collect::<Vec<_>>().join(",") }, tin_p, tin_s, tout_p, tout_s)
 }
 
+// ---------------------------------------------------------------------------------------------
+// which market account the enclosing instruction records the input into / pays the output out of:
+// the real `find_first_market` / `find_last_market` (hook `find_end_market`)
+/// `rt find <first 0|1> <cur> <path|-> <supplied|->`
+fn exec_find(t: &[&str]) -> Option<(String, String)> {
+    if t.len() != 6 || (t[2] != "0" && t[2] != "1") { return None; }
+    let first = t[2] == "1";
+    let cur: u64 = t[3].parse().ok()?;
+    let (path, supplied) = (parse_list(t[4])?, parse_list(t[5])?);
+    if path.len() > 10 { return None; }
+    let store = pk(7);
+    let addr = |tok: u64| Market::find_market_address(&store, &tokpk(tok), &gmsol_store::ID).0;
+    let infos: Vec<AccountInfo<'static>> = supplied.iter().map(|t| leak_account(addr(*t), gmsol_store::ID, 0, false, false)).collect();
+    let infos: &'static [AccountInfo<'static>] = Box::leak(infos.into_boxed_slice());
+    let canon = t.join(" ");
+    // the same path as the primary side (secondary empty) and as the secondary side (behind a primary path)
+    let mut answers = Vec::new();
+    for as_primary in [true, false] {
+        let mut params = SwapActionParams::default();
+        params.current_market_token = tokpk(cur);
+        let lead: Vec<u64> = if as_primary || path.len() > 8 { vec![] } else { vec![cur + 77, cur + 78] };
+        if as_primary { params.primary_length = path.len() as u8; } else { params.primary_length = lead.len() as u8; params.secondary_length = path.len() as u8; }
+        for (i, m) in lead.iter().chain(path.iter()).enumerate() { params.paths[i] = tokpk(*m); }
+        let r = hook::find_end_market(&params, &store, as_primary, first, infos);
+        answers.push(match r {
+            Err(_) => "err".to_string(),
+            Ok(None) => "current".to_string(),
+            Ok(Some(k)) => match supplied.iter().find(|t| addr(**t) == k) { Some(t) => format!("market {t}"), None => "market ?".to_string() },
+        });
+    }
+    if answers[0] != answers[1] { return Some((canon, format!("sides-differ {} / {}", answers[0], answers[1]))); }
+    Some((canon, answers.remove(0)))
+}
+
+fn find_oracle(canon: &str, resp: &str, out: &mut Out) {
+    let t: Vec<&str> = canon.split(' ').collect();
+    if t.len() != 6 { return; }
+    let (first, Ok(cur), Some(path)) = (t[2] == "1", t[3].parse::<u64>(), parse_list(t[4])) else { return };
+    let end = if first { path.first().copied() } else { path.last().copied() }.unwrap_or(cur);
+    let what = if first { "input is recorded into a market other than the FIRST market of the declared path" } else { "output is paid out of a market other than the LAST market of the declared path" };
+    if resp.starts_with("sides-differ") { out.oracle_fail("the primary and the secondary side select different markets for the same path", canon); }
+    else if let Some(m) = resp.strip_prefix("market ") { if m != end.to_string() { out.oracle_fail(&format!("an action's swap {what}"), canon); } }
+    else if resp == "current" && end != cur { out.oracle_fail(&format!("an action's swap {what} (the current market)"), canon); }
+    out.stat(&format!("find.{}", resp.split(' ').next().unwrap_or("")));
+}
+
+fn gen_find(r: &mut Rng) -> String {
+    let nm = r.range(1, 7);
+    let len = match r.below(6) { 0 => 0, 1 => 1, _ => r.range(2, 7) };
+    let mut path: Vec<u64> = Vec::new();
+    for _ in 0..len { let m = r.below(nm + 1); if !path.contains(&m) || r.chance(1, 10) { path.push(m); } }
+    if r.chance(1, 3) && !path.is_empty() { let i = if r.chance(1, 2) { 0 } else { path.len() - 1 }; path[i] = 0; }   // ends in the current market (0)
+    let mut supplied: Vec<u64> = path.iter().copied().filter(|m| *m != 0 || r.chance(1, 3)).collect();
+    supplied.sort(); supplied.dedup();
+    if r.chance(1, 8) && !supplied.is_empty() { let i = r.below(supplied.len() as u64) as usize; supplied.remove(i); }   // a missing account
+    if r.chance(1, 6) { supplied.push(nm + 1 + r.below(3)); }                                                            // an unrelated account
+    format!("rt find {} 0 {} {}", r.below(2), fmt_list(&path), fmt_list(&supplied))
+}
+
 fn fmt_m(m: &M) -> String {
     if m.col_l == 0 && m.col_s == 0 { format!("{}:{}:{}:{}:{}:{}:{}", m.tok, m.long, m.short, m.bal_l, m.bal_s, m.min_l, m.min_s) }
     else { format!("{}:{}:{}:{}:{}:{}:{}:{}:{}", m.tok, m.long, m.short, m.bal_l, m.bal_s, m.min_l, m.min_s, m.col_l, m.col_s) }
@@ -333,6 +393,7 @@ fn gen_same_output(r: &mut Rng) -> String {
 
 fn gen_req(r: &mut Rng) -> String {
     if r.chance(1, 5) { return gen_create(r); }
+    if r.chance(1, 10) { return gen_find(r); }
     if r.chance(1, 8) { return gen_same_output(r); }
     // tokens 0..5, markets 1..6 over random token pairs; the current market is market 0
     let ntok = r.range(2, 5);
@@ -399,6 +460,11 @@ fn main() {
         let r = std::panic::catch_unwind(|| exec(&req));
         let (canon, resp, hops) = match r { Ok(Some(x)) => x, Ok(None) => (req.clone(), "bad-op".to_string(), vec![]), Err(_) => (req.clone(), "panic".to_string(), vec![]) };
         if resp == "panic" { out.oracle_fail("router panicked", &canon); }
+        if canon.starts_with("rt find ") {
+            if resp != "bad-op" && resp != "panic" { find_oracle(&canon, &resp, &mut out); }
+            out.case_nt(&canon, &resp, resp.starts_with("market"));
+            continue;
+        }
         if canon.starts_with("rt create ") {
             if resp != "bad-op" && resp != "panic" { create_oracle(&canon, &resp, &mut out); }
             out.case_nt(&canon, &resp, resp.starts_with("ok ") && !resp.starts_with("ok - | - "));
